@@ -259,7 +259,14 @@ func (e *Error) formatContext() string {
 	if e.Location.Column > 0 {
 		// Account for line number prefix
 		prefix := fmt.Sprintf("  %*d | ", lineNumWidth, errorLineNum)
-		spaces := strings.Repeat(" ", len(prefix)+e.Location.Column-1)
+		// The indicator stays under the line shown: the context may be shorter than
+		// the source line (the parser passes the offending token), and padding up to
+		// a far column would make every error of a long line cost its column.
+		indent := e.Location.Column - 1
+		if indent > len(line) {
+			indent = len(line)
+		}
+		spaces := strings.Repeat(" ", len(prefix)+indent)
 		highlight := "^"
 		if e.Context.HighlightLen > 1 {
 			highlight = strings.Repeat("^", e.Context.HighlightLen)
